@@ -106,6 +106,8 @@ def judge(seq, emit, tag):
             fac, sev, text = m.groups()
             if text.startswith(tag + '-'):
                 parts = text.split('-')
+                if len(parts) == 4 and set(parts[3]) <= {'x'}:
+                    parts = parts[:3]           # filler of a long message (possibly cut by the 1024-byte message buffer)
                 if len(parts) != 3 or parts[1] != fac or parts[2] != sev:
                     V.append(('C18.misattributed', 'file %s: message %r is attributed to (%s:%s)' % (fname, text, fac, sev)))
                     continue
@@ -126,11 +128,14 @@ def judge(seq, emit, tag):
 def _task(srv, item):
     cid, seq = item
     hist = [C.load(section_text(s)) for s in seq]
-    h, res = srv.expand(hist, [('M', 'T%d' % cid)])
+    tag = 'T%d' % cid
+    if cid % 97 == 5:
+        tag += '+%d' % (900, 980, 990, 1000, 1010, 1023, 1100)[cid // 97 % 7]     # a sample of the sections gets long messages
+    h, res = srv.expand(hist, [('M', tag)])
     r = res[0]
     if r.get('status') != 'ok' or 'emit' not in r:
         return (cid, [('C18.died', 'process %s while emitting: %s' % (r.get('status'), (r.get('stderr') or '').strip().splitlines()[-1:]))], h['rcs'], 0)
-    V = judge(seq, r['emit'], 'T%d' % cid)
+    V = judge(seq, r['emit'], tag)
     nlines = sum(len([l for l in (r['emit'].get(f) or '').split('\n') if l]) for f in ('A', 'B', 'C'))
     return (cid, V, h['rcs'], nlines)
 
@@ -176,6 +181,9 @@ def main(tier):
         for res in pool.imap(_task, items, chunksize=8):
             if isinstance(res, dict):
                 raise common.HarnessError(res['harness_error'])
+            if run.out_of_time(15):
+                run.cap('deadline: not every section sequence was run')
+                break
             cid, V, rcs, nl = res
             nlines += nl
             seq = seqs[cid]
@@ -189,7 +197,7 @@ def main(tier):
         raise common.HarnessError('vacuous: only %d log lines were read back' % nlines)
     cov = {'states': len(seqs), 'transitions': sum(len(s) for s in seqs) + 18 * len(seqs), 'traces_validated_against_impl': len(seqs),
            'samples': [[section_text(s).decode() for s in seqs[i]] for i in (1, nsingle // 2, nsingle + 7, len(seqs) - 1)],
-           'exhaustive': True, 'single_sections': nsingle, 'reload_pairs': npair, 'reload_triples': ntriple, 'log_lines_read_back': nlines,
+           'exhaustive': not run.capped, 'single_sections': nsingle, 'reload_pairs': npair, 'reload_triples': ntriple, 'log_lines_read_back': nlines,
            'routed_facility_severity_pairs': routed, 'entries_universe': len(E), 'severity_expressions': [str(e) for e in EXPRS],
            'explanation': 'a state is the routing reached by a sequence of section loads (every sequence of the listed universe is replayed on the real log.c/config.c); transitions = section '
                           'loads + the 18 (facility, severity) messages emitted from every reached routing; every sequence is an execution of the implementation, so all are traces validated '
